@@ -203,6 +203,7 @@ type moRun struct {
 	r                       *ev.Run
 	execs, events, devs     int64
 	opsWithEvents, maxEvent int64
+	rejected                int64
 }
 
 func (m *moRun) violate(op string, targets [][2]int, sizes []int, got, want string) {
@@ -334,7 +335,7 @@ func moVector(m *moRun, ver, level int, s string, decodeToo bool, vectors, skipp
 	o, _, _ := lib.DecodeNew(ver, level, s)
 	*vectors++
 	if o == nil || lib.IsNil(o) {
-		m.r.Infra(fmt.Sprintf("maporder: the v%d %s decoder rejected the well-formed vector %q under the default order", ver, spec.LevelNames[level], s))
+		m.rejected++ // acceptance is C07/C08's business, not this check's
 		return
 	}
 	sched.OrderReset(-1, 0)
@@ -446,6 +447,7 @@ func moPhase2(m *moRun, thorough bool, shard, shards int) {
 			}
 		}
 	}
+	m.r.Add("maporder_domain_vectors_rejected_by_the_decoder", m.rejected)
 	m.r.Add("maporder_domain_vectors", vectors)
 	m.r.Add("maporder_domain_vectors_whose_queries_execute_no_map_range", skipped)
 }
